@@ -1,26 +1,30 @@
 /-
 C08 — DSL objects are equal exactly when they are structurally identical.
 
-Specification = the derived structural equality of `ForML.Model.Dsl`; implementation = `implEq` / `H` of
-`ForML.Model.DslEq` (hash-based equality of features, tuple equality of sources).  All theorems hold for
-*every* hash environment `env` (only congruence of the uninterpreted hash components is used), `pyIntHash`
-is the exact integer hash.
+Specification = the derived structural equality of `ForML.Model.Dsl`.  Implementation = `identEq` / `hashAgree` /
+`repickle` / `dictGet` of `ForML.Model.DslIdent` (the code as repaired by fixes/C08-*.diff: class test + `tuple.__eq__`
+on features, class name test + `tuple.__eq__` on sources) over the hash model `H` of `ForML.Model.DslEq` (`pyIntHash`
+exact, every other component of `hash` a parameter: the theorems hold for *every* hash environment, collisions
+included).  The theorems about the code before the repair are in `ForML.Lemmas.C08Legacy`.
 
-  C08_sound_*        a = b  →  implEq a b = true  ∧  H a = H b                    (all objects, full)
-  C08_complete_on    implEq a b = true → a = b for every pair whose compared features are told apart by
-                     their hashes, aligned in aliasing, and whose tables are told apart by their schemas
-  C08_full           ∀ a b, implEq a b = true ↔ a = b            — stated, FALSE for the code that exists:
-  C08_counterexample   Literal(-1) vs Literal(-2), Literal(0) vs Literal(2^61-1)      (finding C08-F1)
-  C08_collision_lift   … and so is every statement vs the same statement with the literals renamed
-  C08_table_counterexample  two tables with the same fields and different names are `==` (finding C08-F2)
-  C08_alias_counterexample  x == x.alias(n)                                           (finding C08-F4)
-  C08_pickle_partial / _counterexample   reconstruction is the identity unless a compound kind occurs (C08-F3)
+  C08_pyIntHash_*        CPython's integer hash: identity below 2^61-1 (except -1), the collision families
+  C08_sound_hash         a = b → H a = H b                                              (all objects, all environments)
+  C08_kind_iff / C08_schema_iff / C08_lit_iff     kinds, schemas, literals: `==` is the structural equality
+  C08_eq_structural      identEq a b = true → a = b          (ALL features / sources: different objects never compare equal,
+                                                              whatever their hashes)
+  C08_feature_iff / C08_source_iff   identEq a b = true ↔ a = b   for window-free a
+  C08_full               (a == b ∧ hash a = hash b) ↔ a = b, and pickling is the identity, for all objects — stated;
+                         FALSE for the code that exists because of `Window` (finding C08-F1):
+  C08_counterexample       a window built twice is neither equal nor hash-equal nor picklable
+  C08_partial              … and holds for all window-free objects
+  C08_symm               `==` is symmetric on window-free objects
+  C08_raise_distinct     a raising comparison (optional clause on one side only) happens only between different objects
+  C08_dict_feature / C08_dict_source   a hash-table lookup that does not raise returns exactly what a structural
+                         dictionary returns, in every hash environment and probe order (no confusion by collisions)
 -/
-import ForML.Model.DslEq
+import ForML.Model.DslIdent
 
 namespace ForML.Dsl
-
-variable {α : Type} [DecidableEq α]
 
 /-! ### the integer hash -/
 
@@ -54,141 +58,25 @@ theorem C08_pyIntHash_period (n : Int) (k : Nat) (h : 0 ≤ n) :
     omega
   simp only [h1, h2, if_false, h3, Nat.add_mul_mod_self_right]
 
-/-! ### soundness: rebuilt objects are equal and hash equal -/
+/-! ### hashes, kinds, schemas, literals -/
 
 /-- equal structure, equal hash (congruence; this is all that is assumed about `hash`) -/
-theorem C08_sound_hash (env : HashEnv α) :
+theorem C08_sound_hash {α : Type} (env : HashEnv α) :
     (∀ a b : Feature, a = b → a.H env = b.H env) ∧ (∀ a b : Source, a = b → a.H env = b.H env)
     ∧ (∀ a b : Kind, a = b → a.H env = b.H env) :=
   ⟨fun _ _ h => h ▸ rfl, fun _ _ h => h ▸ rfl, fun _ _ h => h ▸ rfl⟩
-
-theorem C08_sound_feature (env : HashEnv α) (f : Feature) : Feature.implEq env f f = some true := by
-  cases f <;> simp [Feature.implEq, aliasEq, Feature.operable]
-
-private theorem Features.implEq_refl (env : HashEnv α) : (fs : Features) → Features.implEq env fs fs = some true
-  | .nil => by simp [Features.implEq]
-  | .cons f fs => by simp [Features.implEq, C08_sound_feature, eqAnd, Features.implEq_refl env fs]
-
-private theorem FeatureOpt.implEq_refl (env : HashEnv α) (o : FeatureOpt) : FeatureOpt.implEq env o o = Option.some true := by
-  cases o <;> simp [FeatureOpt.implEq, C08_sound_feature]
-
-private theorem Orderings.implEq_refl (env : HashEnv α) : (os : Orderings) → Orderings.implEq env os os = some true
-  | .nil => by simp [Orderings.implEq]
-  | .cons (.mk f d) os => by
-    simp [Orderings.implEq, Ordering.implEq, C08_sound_feature, eqAnd, Orderings.implEq_refl env os]
-
-/-- a source compares equal to (a rebuilt copy of) itself -/
-theorem C08_sound_source (env : HashEnv α) : (s : Source) → Source.implEq env s s = some true
-  | .table n fs => by simp [Source.implEq, fieldsEq]
-  | .ref s n => by simp [Source.implEq, eqAnd, C08_sound_source env s]
-  | .join l r k c => by
-    simp [Source.implEq, eqAnd, C08_sound_source env l, C08_sound_source env r, FeatureOpt.implEq_refl]
-  | .set l r k => by simp [Source.implEq, eqAnd, C08_sound_source env l, C08_sound_source env r]
-  | .query s sel pre grp post ord rows => by
-    simp [Source.implEq, eqAnd, C08_sound_source env s, Features.implEq_refl, FeatureOpt.implEq_refl,
-      Orderings.implEq_refl]
-
-theorem C08_sound_kind (k : Kind) : Kind.implEq k k = true := by simp [Kind.implEq]
 
 /-- kinds and schemas: the implementation's equality *is* the structural one -/
 theorem C08_kind_iff (a b : Kind) : Kind.implEq a b = true ↔ a = b := by simp [Kind.implEq]
 
 theorem C08_schema_iff (a b : Fields) : fieldsEq a b = true ↔ a = b := by simp [fieldsEq]
 
-/-! ### completeness where hashes tell the compared features apart -/
+/-- literals `(value, kind)`: equal iff the same value of the same type (`1`, `1.0`, `True` are three literals),
+whatever a float/int comparison says -/
+theorem C08_lit_iff (cf : Lit → Lit → Bool) (v w : Lit) : Lit.identEq cf v w = true ↔ v = w := by
+  cases v <;> cases w <;> simp [Lit.identEq, Lit.valueEq, Lit.kind, Kind.implEq]
 
-/-- the pair of features is compared faithfully: both aliased or both not, and their operables are
-distinguished by their hashes -/
-def Faithful (env : HashEnv α) (p : Feature × Feature) : Prop :=
-  p.1.isAlias = p.2.isAlias ∧ (p.1.operable.H env = p.2.operable.H env → p.1.operable = p.2.operable)
-
-instance (env : HashEnv α) (p : Feature × Feature) : Decidable (Faithful env p) := by
-  unfold Faithful; exact inferInstance
-
-def Features.pairs : Features → Features → List (Feature × Feature)
-  | .cons a as, .cons b bs => (a, b) :: Features.pairs as bs
-  | _, _ => []
-
-def FeatureOpt.pairs : FeatureOpt → FeatureOpt → List (Feature × Feature)
-  | .some a, .some b => [(a, b)]
-  | _, _ => []
-
-def Orderings.pairs : Orderings → Orderings → List (Feature × Feature)
-  | .cons (.mk a _) as, .cons (.mk b _) bs => (a, b) :: Orderings.pairs as bs
-  | _, _ => []
-
-/-- the feature pairs `tuple.__eq__` puts side by side when two sources are compared -/
-def Source.cmpPairs : Source → Source → List (Feature × Feature)
-  | .ref sa _, .ref sb _ => Source.cmpPairs sa sb
-  | .join la ra _ ca, .join lb rb _ cb => Source.cmpPairs la lb ++ Source.cmpPairs ra rb ++ FeatureOpt.pairs ca cb
-  | .set la ra _, .set lb rb _ => Source.cmpPairs la lb ++ Source.cmpPairs ra rb
-  | .query sa sela prea grpa posta orda _, .query sb selb preb grpb postb ordb _ =>
-    Source.cmpPairs sa sb ++ Features.pairs sela selb ++ FeatureOpt.pairs prea preb ++ Features.pairs grpa grpb
-      ++ FeatureOpt.pairs posta postb ++ Orderings.pairs orda ordb
-  | _, _ => []
-
-/-- the table pairs put side by side -/
-def Source.tabPairs : Source → Source → List ((String × Fields) × (String × Fields))
-  | .table na fa, .table nb fb => [((na, fa), (nb, fb))]
-  | .ref sa _, .ref sb _ => Source.tabPairs sa sb
-  | .join la ra _ _, .join lb rb _ _ => Source.tabPairs la lb ++ Source.tabPairs ra rb
-  | .set la ra _, .set lb rb _ => Source.tabPairs la lb ++ Source.tabPairs ra rb
-  | .query sa _ _ _ _ _ _, .query sb _ _ _ _ _ _ => Source.tabPairs sa sb
-  | _, _ => []
-
-/-- tables with equal schemas have equal names (no "twin" tables) -/
-def NoTwin (p : (String × Fields) × (String × Fields)) : Prop := p.1.2 = p.2.2 → p.1.1 = p.2.1
-
-instance (p : (String × Fields) × (String × Fields)) : Decidable (NoTwin p) := by unfold NoTwin; exact inferInstance
-
-/-- features: hash-based equality is the structural one on faithfully compared pairs -/
-theorem C08_complete_on_feature (env : HashEnv α) (a b : Feature) (hf : Faithful env (a, b))
-    (h : Feature.implEq env a b = some true) : a = b := by
-  obtain ⟨hal, hinj⟩ := hf
-  cases a <;> cases b <;>
-    simp [Feature.implEq, aliasEq, Feature.operable, Feature.isAlias] at h hal hinj ⊢ <;>
-    first
-      | exact hinj h
-      | exact ⟨hinj h.1, h.2⟩
-
-private theorem Features.complete (env : HashEnv α) : (as bs : Features) →
-    (∀ p ∈ Features.pairs as bs, Faithful env p) → Features.implEq env as bs = some true → as = bs
-  | .nil, .nil, _, _ => rfl
-  | .nil, .cons _ _, _, h => by simp [Features.implEq] at h
-  | .cons _ _, .nil, _, h => by simp [Features.implEq] at h
-  | .cons a as, .cons b bs, hf, h => by
-    simp only [Features.pairs, List.mem_cons, forall_eq_or_imp] at hf
-    simp only [Features.implEq, eqAnd] at h
-    split at h
-    · cases h
-    · cases h
-    · rename_i hab
-      rw [C08_complete_on_feature env a b hf.1 hab, Features.complete env as bs hf.2 h]
-
-private theorem FeatureOpt.complete (env : HashEnv α) (a b : FeatureOpt)
-    (hf : ∀ p ∈ FeatureOpt.pairs a b, Faithful env p) (h : FeatureOpt.implEq env a b = Option.some true) : a = b := by
-  cases a <;> cases b <;> simp [FeatureOpt.implEq] at h ⊢
-  rename_i x y
-  exact C08_complete_on_feature env x y (hf (x, y) (by simp [FeatureOpt.pairs])) h
-
-private theorem Orderings.complete (env : HashEnv α) : (as bs : Orderings) →
-    (∀ p ∈ Orderings.pairs as bs, Faithful env p) → Orderings.implEq env as bs = some true → as = bs
-  | .nil, .nil, _, _ => rfl
-  | .nil, .cons _ _, _, h => by simp [Orderings.implEq] at h
-  | .cons _ _, .nil, _, h => by simp [Orderings.implEq] at h
-  | .cons (.mk a da) as, .cons (.mk b db) bs, hf, h => by
-    simp only [Orderings.pairs, List.mem_cons, forall_eq_or_imp] at hf
-    simp only [Orderings.implEq, Ordering.implEq, eqAnd] at h
-    split at h
-    · cases h
-    · cases h
-    · rename_i hab
-      split at hab
-      · cases hab
-      · cases hab
-      · rename_i hfe
-        simp at hab
-        rw [C08_complete_on_feature env a b hf.1 hfe, hab, Orderings.complete env as bs hf.2 h]
+/-! ### `==` is the structural equality -/
 
 private theorem eqAnd_true {r : EqRes} {k : Unit → EqRes} (h : eqAnd r k = some true) :
     r = some true ∧ k () = some true := by
@@ -198,332 +86,360 @@ private theorem eqAnd_true {r : EqRes} {k : Unit → EqRes} (h : eqAnd r k = som
   · cases h
   · exact ⟨rfl, h⟩
 
-/-- sources: if every compared feature pair is faithful and no twin tables are put side by side, the
-implementation's `==` holds only between structurally identical sources -/
-theorem C08_complete_on (env : HashEnv α) : (a b : Source) →
-    (∀ p ∈ Source.cmpPairs a b, Faithful env p) → (∀ p ∈ Source.tabPairs a b, NoTwin p) →
-    Source.implEq env a b = some true → a = b
-  | .table na fa, .table nb fb, _, ht, h => by
-    have := ht ((na, fa), (nb, fb)) (by simp [Source.tabPairs])
-    simp [Source.implEq, fieldsEq] at h
-    simp [NoTwin] at this
-    rw [h, this h]
-  | .ref sa na, .ref sb nb, hf, ht, h => by
-    simp only [Source.implEq] at h
+mutual
+private theorem Feature.identEq_sound (cf : Lit → Lit → Bool) :
+    (a b : Feature) → Feature.identEq cf a b = some true → a = b
+  | .lit v, b, h => by
+    cases b with
+    | lit w => simp [Feature.identEq] at h; rw [(C08_lit_iff cf v w).mp h]
+    | _ => simp [Feature.identEq] at h
+  | .elem oa na, b, h => by
+    cases b with
+    | elem ob nb =>
+      simp only [Feature.identEq] at h
+      split at h
+      · obtain ⟨h1, h2⟩ := eqAnd_true h
+        simp at h2
+        rw [Source.identEq_sound cf oa ob h1, h2]
+      · cases h
+    | _ => simp [Feature.identEq] at h
+  | .alias fa na, b, h => by
+    cases b with
+    | alias fb nb =>
+      simp only [Feature.identEq] at h
+      obtain ⟨h1, h2⟩ := eqAnd_true h
+      simp at h2
+      rw [Feature.identEq_sound cf fa fb h1, h2]
+    | _ => simp [Feature.identEq] at h
+  | .expr opa as, b, h => by
+    cases b with
+    | expr opb bs =>
+      simp only [Feature.identEq] at h
+      split at h
+      · rename_i hop
+        rw [hop, Features.identEq_sound cf as bs h]
+      · cases h
+    | _ => simp [Feature.identEq] at h
+  | .cast fa ka, b, h => by
+    cases b with
+    | cast fb kb =>
+      simp only [Feature.identEq] at h
+      obtain ⟨h1, h2⟩ := eqAnd_true h
+      simp [Kind.implEq] at h2
+      rw [Feature.identEq_sound cf fa fb h1, h2]
+    | _ => simp [Feature.identEq] at h
+  | .window _ _ _, b, h => by
+    cases b <;> simp [Feature.identEq] at h
+private theorem Features.identEq_sound (cf : Lit → Lit → Bool) :
+    (as bs : Features) → Features.identEq cf as bs = some true → as = bs
+  | .nil, bs, h => by
+    cases bs with
+    | nil => rfl
+    | cons _ _ => simp [Features.identEq] at h
+  | .cons a as, bs, h => by
+    cases bs with
+    | nil => simp [Features.identEq] at h
+    | cons b bs =>
+      simp only [Features.identEq] at h
+      obtain ⟨h1, h2⟩ := eqAnd_true h
+      rw [Feature.identEq_sound cf a b h1, Features.identEq_sound cf as bs h2]
+private theorem FeatureOpt.identEq_sound (cf : Lit → Lit → Bool) :
+    (a b : FeatureOpt) → FeatureOpt.identEq cf a b = Option.some true → a = b
+  | .none, b, h => by
+    cases b with
+    | none => rfl
+    | some _ => simp [FeatureOpt.identEq] at h
+  | .some x, b, h => by
+    cases b with
+    | none => simp [FeatureOpt.identEq] at h
+    | some y =>
+      simp only [FeatureOpt.identEq] at h
+      rw [Feature.identEq_sound cf x y h]
+private theorem Ordering.identEq_sound (cf : Lit → Lit → Bool) :
+    (a b : Ordering) → Ordering.identEq cf a b = some true → a = b
+  | .mk fa da, .mk fb db, h => by
+    simp only [Ordering.identEq] at h
     obtain ⟨h1, h2⟩ := eqAnd_true h
     simp at h2
-    rw [C08_complete_on env sa sb (by simpa [Source.cmpPairs] using hf) (by simpa [Source.tabPairs] using ht) h1, h2]
-  | .join la ra ka ca, .join lb rb kb cb, hf, ht, h => by
-    simp only [Source.implEq] at h
-    obtain ⟨h1, h⟩ := eqAnd_true h
-    obtain ⟨h2, h⟩ := eqAnd_true h
-    obtain ⟨h3, h4⟩ := eqAnd_true h
-    simp at h3
-    simp only [Source.cmpPairs, List.mem_append] at hf
-    simp only [Source.tabPairs, List.mem_append] at ht
-    rw [C08_complete_on env la lb (fun p hp => hf p (.inl (.inl hp))) (fun p hp => ht p (.inl hp)) h1,
-      C08_complete_on env ra rb (fun p hp => hf p (.inl (.inr hp))) (fun p hp => ht p (.inr hp)) h2, h3,
-      FeatureOpt.complete env ca cb (fun p hp => hf p (.inr hp)) h4]
-  | .set la ra ka, .set lb rb kb, hf, ht, h => by
-    simp only [Source.implEq] at h
-    obtain ⟨h1, h⟩ := eqAnd_true h
-    obtain ⟨h2, h3⟩ := eqAnd_true h
-    simp at h3
-    simp only [Source.cmpPairs, List.mem_append] at hf
-    simp only [Source.tabPairs, List.mem_append] at ht
-    rw [C08_complete_on env la lb (fun p hp => hf p (.inl hp)) (fun p hp => ht p (.inl hp)) h1,
-      C08_complete_on env ra rb (fun p hp => hf p (.inr hp)) (fun p hp => ht p (.inr hp)) h2, h3]
-  | .query sa sela prea grpa posta orda rowsa, .query sb selb preb grpb postb ordb rowsb, hf, ht, h => by
-    simp only [Source.implEq] at h
-    obtain ⟨h1, h⟩ := eqAnd_true h
-    obtain ⟨h2, h⟩ := eqAnd_true h
-    obtain ⟨h3, h⟩ := eqAnd_true h
-    obtain ⟨h4, h⟩ := eqAnd_true h
-    obtain ⟨h5, h⟩ := eqAnd_true h
-    obtain ⟨h6, h7⟩ := eqAnd_true h
-    simp at h7
-    simp only [Source.cmpPairs, List.mem_append] at hf
-    simp only [Source.tabPairs] at ht
-    rw [C08_complete_on env sa sb (fun p hp => hf p (.inl (.inl (.inl (.inl (.inl hp)))))) ht h1,
-      Features.complete env sela selb (fun p hp => hf p (.inl (.inl (.inl (.inl (.inr hp)))))) h2,
-      FeatureOpt.complete env prea preb (fun p hp => hf p (.inl (.inl (.inl (.inr hp))))) h3,
-      Features.complete env grpa grpb (fun p hp => hf p (.inl (.inl (.inr hp)))) h4,
-      FeatureOpt.complete env posta postb (fun p hp => hf p (.inl (.inr hp))) h5,
-      Orderings.complete env orda ordb (fun p hp => hf p (.inr hp)) h6, h7]
-  | .table _ _, .ref _ _, _, _, h | .table _ _, .join _ _ _ _, _, _, h | .table _ _, .set _ _ _, _, _, h
-  | .table _ _, .query _ _ _ _ _ _ _, _, _, h
-  | .ref _ _, .table _ _, _, _, h | .ref _ _, .join _ _ _ _, _, _, h | .ref _ _, .set _ _ _, _, _, h
-  | .ref _ _, .query _ _ _ _ _ _ _, _, _, h
-  | .join _ _ _ _, .table _ _, _, _, h | .join _ _ _ _, .ref _ _, _, _, h | .join _ _ _ _, .set _ _ _, _, _, h
-  | .join _ _ _ _, .query _ _ _ _ _ _ _, _, _, h
-  | .set _ _ _, .table _ _, _, _, h | .set _ _ _, .ref _ _, _, _, h | .set _ _ _, .join _ _ _ _, _, _, h
-  | .set _ _ _, .query _ _ _ _ _ _ _, _, _, h
-  | .query _ _ _ _ _ _ _, .table _ _, _, _, h | .query _ _ _ _ _ _ _, .ref _ _, _, _, h
-  | .query _ _ _ _ _ _ _, .join _ _ _ _, _, _, h | .query _ _ _ _ _ _ _, .set _ _ _, _, _, h => by
-    simp [Source.implEq] at h
+    rw [Feature.identEq_sound cf fa fb h1, h2]
+private theorem Orderings.identEq_sound (cf : Lit → Lit → Bool) :
+    (as bs : Orderings) → Orderings.identEq cf as bs = some true → as = bs
+  | .nil, bs, h => by
+    cases bs with
+    | nil => rfl
+    | cons _ _ => simp [Orderings.identEq] at h
+  | .cons a as, bs, h => by
+    cases bs with
+    | nil => simp [Orderings.identEq] at h
+    | cons b bs =>
+      simp only [Orderings.identEq] at h
+      obtain ⟨h1, h2⟩ := eqAnd_true h
+      rw [Ordering.identEq_sound cf a b h1, Orderings.identEq_sound cf as bs h2]
+private theorem Source.identEq_sound (cf : Lit → Lit → Bool) :
+    (a b : Source) → Source.identEq cf a b = some true → a = b
+  | .table na fa, b, h => by
+    cases b with
+    | table nb fb =>
+      simp [Source.identEq, fieldsEq] at h
+      rw [h.1, h.2]
+    | _ => simp [Source.identEq] at h
+  | .ref sa na, b, h => by
+    cases b with
+    | ref sb nb =>
+      simp only [Source.identEq] at h
+      obtain ⟨h1, h2⟩ := eqAnd_true h
+      simp at h2
+      rw [Source.identEq_sound cf sa sb h1, h2]
+    | _ => simp [Source.identEq] at h
+  | .join la ra ka ca, b, h => by
+    cases b with
+    | join lb rb kb cb =>
+      simp only [Source.identEq] at h
+      obtain ⟨h1, h⟩ := eqAnd_true h
+      obtain ⟨h2, h⟩ := eqAnd_true h
+      obtain ⟨h3, h4⟩ := eqAnd_true h
+      simp at h3
+      rw [Source.identEq_sound cf la lb h1, Source.identEq_sound cf ra rb h2, h3, FeatureOpt.identEq_sound cf ca cb h4]
+    | _ => simp [Source.identEq] at h
+  | .set la ra ka, b, h => by
+    cases b with
+    | set lb rb kb =>
+      simp only [Source.identEq] at h
+      obtain ⟨h1, h⟩ := eqAnd_true h
+      obtain ⟨h2, h3⟩ := eqAnd_true h
+      simp at h3
+      rw [Source.identEq_sound cf la lb h1, Source.identEq_sound cf ra rb h2, h3]
+    | _ => simp [Source.identEq] at h
+  | .query sa sela prea grpa posta orda rowsa, b, h => by
+    cases b with
+    | query sb selb preb grpb postb ordb rowsb =>
+      simp only [Source.identEq] at h
+      obtain ⟨h1, h⟩ := eqAnd_true h
+      obtain ⟨h2, h⟩ := eqAnd_true h
+      obtain ⟨h3, h⟩ := eqAnd_true h
+      obtain ⟨h4, h⟩ := eqAnd_true h
+      obtain ⟨h5, h⟩ := eqAnd_true h
+      obtain ⟨h6, h7⟩ := eqAnd_true h
+      simp at h7
+      rw [Source.identEq_sound cf sa sb h1, Features.identEq_sound cf sela selb h2,
+        FeatureOpt.identEq_sound cf prea preb h3, Features.identEq_sound cf grpa grpb h4,
+        FeatureOpt.identEq_sound cf posta postb h5, Orderings.identEq_sound cf orda ordb h6, h7]
+    | _ => simp [Source.identEq] at h
+end
 
-/-! ### the statement at full strength — false for the code that exists -/
+mutual
+private theorem Feature.identEq_refl (cf : Lit → Lit → Bool) :
+    (f : Feature) → f.windowFree = true → Feature.identEq cf f f = some true
+  | .lit v, _ => by simp [Feature.identEq, (C08_lit_iff cf v v).mpr rfl]
+  | .elem o n, h => by
+    simp only [Feature.windowFree] at h
+    simp [Feature.identEq, eqAnd, Source.identEq_refl cf o h]
+  | .alias f n, h => by
+    simp only [Feature.windowFree] at h
+    simp [Feature.identEq, eqAnd, Feature.identEq_refl cf f h]
+  | .expr op args, h => by
+    simp only [Feature.windowFree] at h
+    simp [Feature.identEq, Features.identEq_refl cf args h]
+  | .cast f k, h => by
+    simp only [Feature.windowFree] at h
+    simp [Feature.identEq, eqAnd, Feature.identEq_refl cf f h, Kind.implEq]
+  | .window _ _ _, h => by simp [Feature.windowFree] at h
+private theorem Features.identEq_refl (cf : Lit → Lit → Bool) :
+    (fs : Features) → fs.windowFree = true → Features.identEq cf fs fs = some true
+  | .nil, _ => by simp [Features.identEq]
+  | .cons f fs, h => by
+    simp [Features.windowFree] at h
+    simp [Features.identEq, eqAnd, Feature.identEq_refl cf f h.1, Features.identEq_refl cf fs h.2]
+private theorem FeatureOpt.identEq_refl (cf : Lit → Lit → Bool) :
+    (o : FeatureOpt) → o.windowFree = true → FeatureOpt.identEq cf o o = Option.some true
+  | .none, _ => by simp [FeatureOpt.identEq]
+  | .some f, h => by
+    simp only [FeatureOpt.windowFree] at h
+    simp [FeatureOpt.identEq, Feature.identEq_refl cf f h]
+private theorem Ordering.identEq_refl (cf : Lit → Lit → Bool) :
+    (o : Ordering) → o.windowFree = true → Ordering.identEq cf o o = some true
+  | .mk f d, h => by
+    simp only [Ordering.windowFree] at h
+    simp [Ordering.identEq, eqAnd, Feature.identEq_refl cf f h]
+private theorem Orderings.identEq_refl (cf : Lit → Lit → Bool) :
+    (os : Orderings) → os.windowFree = true → Orderings.identEq cf os os = some true
+  | .nil, _ => by simp [Orderings.identEq]
+  | .cons o os, h => by
+    simp [Orderings.windowFree] at h
+    simp [Orderings.identEq, eqAnd, Ordering.identEq_refl cf o h.1, Orderings.identEq_refl cf os h.2]
+private theorem Source.identEq_refl (cf : Lit → Lit → Bool) :
+    (s : Source) → s.windowFree = true → Source.identEq cf s s = some true
+  | .table n fs, _ => by simp [Source.identEq, fieldsEq]
+  | .ref s n, h => by
+    simp only [Source.windowFree] at h
+    simp [Source.identEq, eqAnd, Source.identEq_refl cf s h]
+  | .join l r k c, h => by
+    simp [Source.windowFree] at h
+    simp [Source.identEq, eqAnd, Source.identEq_refl cf l h.1.1, Source.identEq_refl cf r h.1.2,
+      FeatureOpt.identEq_refl cf c h.2]
+  | .set l r k, h => by
+    simp [Source.windowFree] at h
+    simp [Source.identEq, eqAnd, Source.identEq_refl cf l h.1, Source.identEq_refl cf r h.2]
+  | .query s sel pre grp post ord rows, h => by
+    simp [Source.windowFree] at h
+    simp [Source.identEq, eqAnd, Source.identEq_refl cf s h.1.1.1.1.1, Features.identEq_refl cf sel h.1.1.1.1.2,
+      FeatureOpt.identEq_refl cf pre h.1.1.1.2, Features.identEq_refl cf grp h.1.1.2,
+      FeatureOpt.identEq_refl cf post h.1.2, Orderings.identEq_refl cf ord h.2]
+end
 
-/-- "equal exactly when structurally identical" for features and sources, in every hash environment -/
+/-- Different objects never compare equal — no hypothesis on hashes, windows or well-formedness: whatever `hash`
+does, `==` holds only between structurally identical features / sources. -/
+theorem C08_eq_structural (cf : Lit → Lit → Bool) :
+    (∀ a b : Feature, Feature.identEq cf a b = some true → a = b)
+    ∧ (∀ a b : Source, Source.identEq cf a b = some true → a = b) :=
+  ⟨Feature.identEq_sound cf, Source.identEq_sound cf⟩
+
+/-- features: equal exactly when structurally identical (rebuilt window-free features compare equal) -/
+theorem C08_feature_iff (cf : Lit → Lit → Bool) (a b : Feature) (ha : a.windowFree = true) :
+    Feature.identEq cf a b = some true ↔ a = b :=
+  ⟨Feature.identEq_sound cf a b, fun h => h ▸ Feature.identEq_refl cf a ha⟩
+
+/-- sources: equal exactly when structurally identical -/
+theorem C08_source_iff (cf : Lit → Lit → Bool) (a b : Source) (ha : a.windowFree = true) :
+    Source.identEq cf a b = some true ↔ a = b :=
+  ⟨Source.identEq_sound cf a b, fun h => h ▸ Source.identEq_refl cf a ha⟩
+
+/-- `==` is symmetric -/
+theorem C08_symm (cf : Lit → Lit → Bool) :
+    (∀ a b : Feature, a.windowFree = true → b.windowFree = true →
+      (Feature.identEq cf a b = some true ↔ Feature.identEq cf b a = some true))
+    ∧ (∀ a b : Source, a.windowFree = true → b.windowFree = true →
+      (Source.identEq cf a b = some true ↔ Source.identEq cf b a = some true)) := by
+  refine ⟨fun a b ha hb => ?_, fun a b ha hb => ?_⟩
+  · rw [C08_feature_iff cf a b ha, C08_feature_iff cf b a hb]; exact eq_comm
+  · rw [C08_source_iff cf a b ha, C08_source_iff cf b a hb]; exact eq_comm
+
+/-- a comparison raises (an optional clause present on one side only) only between different objects -/
+theorem C08_raise_distinct (cf : Lit → Lit → Bool) :
+    (∀ a b : Feature, a.windowFree = true → Feature.identEq cf a b = none → a ≠ b)
+    ∧ (∀ a b : Source, a.windowFree = true → Source.identEq cf a b = none → a ≠ b) := by
+  refine ⟨fun a b ha h e => ?_, fun a b ha h e => ?_⟩
+  · rw [← e, Feature.identEq_refl cf a ha] at h; cases h
+  · rw [← e, Source.identEq_refl cf a ha] at h; cases h
+
+/-! ### the statement at full strength -/
+
+/-- "compare equal — and hash equal — iff built from the same structure; identity survives pickling", for all
+features, sources and kinds, in every hash environment -/
 def C08_full : Prop :=
-  ∀ (env : HashEnv HTerm), (∀ a b : Feature, Feature.implEq env a b = some true ↔ a = b)
-    ∧ (∀ a b : Source, Source.implEq env a b = some true ↔ a = b)
+  ∀ (α : Type) [DecidableEq α] (env : HashEnv α) (cf : Lit → Lit → Bool),
+    (∀ a b : Feature, (Feature.identEq cf a b = some true ∧ Feature.hashAgree env a b = true) ↔ a = b)
+    ∧ (∀ a b : Source, (Source.identEq cf a b = some true ∧ Source.hashAgree env a b = true) ↔ a = b)
+    ∧ (∀ a b : Kind, (Kind.implEq a b = true ∧ a.H env = b.H env) ↔ a = b)
+    ∧ (∀ f : Feature, f.repickle = some f) ∧ (∀ s : Source, s.repickle = some s) ∧ (∀ k : Kind, k.repickle = some k)
 
-/-- finding C08-F1: `Literal(-1) == Literal(-2)` and `Literal(0) == Literal(2**61-1)` in *every* environment -/
-theorem C08_collision (env : HashEnv α) :
-    Feature.implEq env (.lit (.int (-1))) (.lit (.int (-2))) = some true
-    ∧ Feature.implEq env (.lit (.int 0)) (.lit (.int 2305843009213693951)) = some true := by
-  have h1 : pyIntHash (-1) = pyIntHash (-2) := by decide
-  have h2 : pyIntHash 0 = pyIntHash 2305843009213693951 := by decide
-  simp [Feature.implEq, Feature.operable, Feature.H, Lit.H, Lit.kind, h1, h2]
+/-- the window `RowNumber() OVER ()` -/
+def rowNumberWindow : Feature := .window (.expr .rownumber .nil) .nil .nil
+
+/-- finding C08-F1: a window built twice is not equal to itself, does not hash equal and does not pickle -/
+theorem C08_window (cf : Lit → Lit → Bool) :
+    Feature.identEq cf rowNumberWindow rowNumberWindow = some false
+    ∧ Feature.hashAgree freeEnv rowNumberWindow rowNumberWindow = false
+    ∧ rowNumberWindow.repickle = none := by
+  refine ⟨by simp [rowNumberWindow, Feature.identEq], by simp [rowNumberWindow, Feature.hashAgree, Feature.windowFree],
+    by simp [rowNumberWindow, Feature.repickle, Feature.windowFree]⟩
 
 theorem C08_counterexample : ¬ C08_full := by
   intro h
-  have := ((h freeEnv).1 (.lit (.int (-1))) (.lit (.int (-2)))).mp (C08_collision freeEnv).1
-  exact absurd this (by decide)
+  have := ((h HTerm freeEnv (fun _ _ => false)).1 rowNumberWindow rowNumberWindow).mpr rfl
+  rw [(C08_window _).1] at this
+  exact absurd this.1 (by decide)
 
-/-- finding C08-F2: two tables with the same fields and different names compare equal although they hash
-differently (free environment: differently in every environment that tells the class names apart) -/
-theorem C08_table_counterexample (fs : Fields) :
-    Source.implEq freeEnv (.table "A" fs) (.table "B" fs) = some true
-    ∧ Source.table "A" fs ≠ .table "B" fs
-    ∧ (Source.table "A" fs).H freeEnv ≠ (Source.table "B" fs).H freeEnv := by
-  refine ⟨by simp [Source.implEq, fieldsEq], by simp, ?_⟩
-  simp [Source.H, freeEnv]
+/-- the full statement for every window-free object (all hash environments, collisions included) -/
+theorem C08_partial {α : Type} [DecidableEq α] (env : HashEnv α) (cf : Lit → Lit → Bool) :
+    (∀ a b : Feature, a.windowFree = true →
+      ((Feature.identEq cf a b = some true ∧ Feature.hashAgree env a b = true) ↔ a = b))
+    ∧ (∀ a b : Source, a.windowFree = true →
+      ((Source.identEq cf a b = some true ∧ Source.hashAgree env a b = true) ↔ a = b))
+    ∧ (∀ a b : Kind, (Kind.implEq a b = true ∧ a.H env = b.H env) ↔ a = b)
+    ∧ (∀ f : Feature, f.windowFree = true → f.repickle = some f)
+    ∧ (∀ s : Source, s.windowFree = true → s.repickle = some s) ∧ (∀ k : Kind, k.repickle = some k) := by
+  refine ⟨fun a b ha => ⟨fun h => Feature.identEq_sound cf a b h.1, fun h => ?_⟩,
+    fun a b ha => ⟨fun h => Source.identEq_sound cf a b h.1, fun h => ?_⟩,
+    fun a b => ⟨fun h => (C08_kind_iff a b).mp h.1, fun h => ?_⟩,
+    fun f hf => by simp [Feature.repickle, hf], fun s hs => by simp [Source.repickle, hs], fun k => rfl⟩
+  · subst h; exact ⟨Feature.identEq_refl cf a ha, by simp [Feature.hashAgree, ha]⟩
+  · subst h; exact ⟨Source.identEq_refl cf a ha, by simp [Source.hashAgree, ha]⟩
+  · subst h; exact ⟨(C08_kind_iff a a).mpr rfl, rfl⟩
 
-/-- finding C08-F4: `x == x.alias(n)` holds (the right operand is reduced to its operable), the other way
-round the comparison is false or raises -/
-theorem C08_alias_counterexample (env : HashEnv α) (x : Feature) (n : String) (hx : x.isAlias = false) :
-    Feature.implEq env x (.alias x n) = some true ∧ x ≠ .alias x n
-    ∧ Feature.implEq env (.alias x n) x ≠ some true := by
-  refine ⟨?_, ?_, ?_⟩
-  · cases x <;> simp_all [Feature.implEq, aliasEq, Feature.operable, Feature.isAlias]
-  · intro h
-    have := congrArg sizeOf h
-    simp at this
-    omega
-  · cases x <;> simp_all [Feature.implEq, aliasEq, Feature.isAlias]
+/-! ### lookups are never confused -/
 
-/-! ### a hash collision of two literals confuses every pair of statements built around them -/
+/-- A lookup that does not raise answers like a structural dictionary — for any hash function `h` and any probe order,
+provided `==` against the key is sound and the key equals itself. -/
+theorem C08_dict_structural {α K V : Type} [DecidableEq α] [DecidableEq K] (h : K → α) (eq : K → K → EqRes) (k : K)
+    (hsound : ∀ k', eq k' k = some true → k' = k) (hrefl : eq k k = some true) :
+    ∀ (d : List (K × V)) (r : Option V), dictGet h eq d k = .ok r → r = structGet d k := by
+  intro d
+  induction d with
+  | nil => intro r hr; simp [dictGet] at hr; simp [structGet, hr]
+  | cons e rest ih =>
+    obtain ⟨k', v⟩ := e
+    intro r hr
+    by_cases hk : k' = k
+    · subst hk
+      simp [dictGet, hrefl] at hr
+      simp [structGet, ← hr]
+    · have hs : structGet ((k', v) :: rest) k = structGet rest k := by simp [structGet, List.find?, hk]
+      rw [hs]
+      simp only [dictGet] at hr
+      split at hr
+      · split at hr
+        · rename_i heq
+          exact absurd (hsound k' heq) hk
+        · exact ih r hr
+        · cases hr
+      · exact ih r hr
 
-private theorem elemClass_mapInt (φ : Int → Int) (o : Source) : elemClass (o.mapInt φ) = elemClass o := by
-  cases o <;> simp [Source.mapInt, elemClass]
+/-- features as keys (sets of elements, `lru_cache` of `generate_feature`): never confused, in any hash environment -/
+theorem C08_dict_feature {α V : Type} [DecidableEq α] (env : HashEnv α) (cf : Lit → Lit → Bool) (k : Feature)
+    (hk : k.windowFree = true) (d : List (Feature × V)) (r : Option V)
+    (h : dictGet (fun f => f.H env) (Feature.identEq cf) d k = .ok r) : r = structGet d k :=
+  C08_dict_structural _ _ k (fun k' => Feature.identEq_sound cf k' k) (Feature.identEq_refl cf k hk) d r h
 
-private theorem Lit.H_mapInt (env : HashEnv α) (φ : Int → Int) (hφ : ∀ n, pyIntHash (φ n) = pyIntHash n) (v : Lit) :
-    (v.mapInt φ).H env = v.H env ∧ (v.mapInt φ).kind = v.kind := by
-  cases v <;> simp [Lit.mapInt, Lit.H, Lit.kind, hφ]
-
-mutual
-private theorem Feature.H_mapInt (env : HashEnv α) (φ : Int → Int) (hφ : ∀ n, pyIntHash (φ n) = pyIntHash n) :
-    (f : Feature) → (f.mapInt φ).H env = f.H env
-  | .lit v => by simp [Feature.mapInt, Feature.H, Lit.H_mapInt env φ hφ v]
-  | .elem o n => by simp [Feature.mapInt, Feature.H, elemClass_mapInt, Source.H_mapInt env φ hφ o]
-  | .alias f n => by simp [Feature.mapInt, Feature.H, Feature.H_mapInt env φ hφ f]
-  | .expr op args => by simp [Feature.mapInt, Feature.H, Features.Hs_mapInt env φ hφ args]
-  | .cast f k => by simp [Feature.mapInt, Feature.H, Feature.H_mapInt env φ hφ f]
-  | .window fn ps os => by
-    simp [Feature.mapInt, Feature.H, Feature.H_mapInt env φ hφ fn, Features.Hs_mapInt env φ hφ ps,
-      Orderings.Hs_mapInt env φ hφ os]
-private theorem Features.Hs_mapInt (env : HashEnv α) (φ : Int → Int) (hφ : ∀ n, pyIntHash (φ n) = pyIntHash n) :
-    (fs : Features) → (fs.mapInt φ).Hs env = fs.Hs env
-  | .nil => by simp [Features.mapInt]
-  | .cons f fs => by
-    simp [Features.mapInt, Features.Hs, Feature.H_mapInt env φ hφ f, Features.Hs_mapInt env φ hφ fs]
-private theorem FeatureOpt.H_mapInt (env : HashEnv α) (φ : Int → Int) (hφ : ∀ n, pyIntHash (φ n) = pyIntHash n) :
-    (o : FeatureOpt) → (o.mapInt φ).H env = o.H env
-  | .none => by simp [FeatureOpt.mapInt]
-  | .some f => by simp [FeatureOpt.mapInt, FeatureOpt.H, Feature.H_mapInt env φ hφ f]
-private theorem Ordering.H_mapInt (env : HashEnv α) (φ : Int → Int) (hφ : ∀ n, pyIntHash (φ n) = pyIntHash n) :
-    (o : Ordering) → (o.mapInt φ).H env = o.H env
-  | .mk f d => by simp [Ordering.mapInt, Ordering.H, Feature.H_mapInt env φ hφ f]
-private theorem Orderings.Hs_mapInt (env : HashEnv α) (φ : Int → Int) (hφ : ∀ n, pyIntHash (φ n) = pyIntHash n) :
-    (os : Orderings) → (os.mapInt φ).Hs env = os.Hs env
-  | .nil => by simp [Orderings.mapInt]
-  | .cons o os => by
-    simp [Orderings.mapInt, Orderings.Hs, Ordering.H_mapInt env φ hφ o, Orderings.Hs_mapInt env φ hφ os]
-private theorem Source.H_mapInt (env : HashEnv α) (φ : Int → Int) (hφ : ∀ n, pyIntHash (φ n) = pyIntHash n) :
-    (s : Source) → (s.mapInt φ).H env = s.H env
-  | .table n fs => by simp [Source.mapInt]
-  | .ref s n => by simp [Source.mapInt, Source.H, Source.H_mapInt env φ hφ s]
-  | .join l r k c => by
-    simp [Source.mapInt, Source.H, Source.H_mapInt env φ hφ l, Source.H_mapInt env φ hφ r,
-      FeatureOpt.H_mapInt env φ hφ c]
-  | .set l r k => by simp [Source.mapInt, Source.H, Source.H_mapInt env φ hφ l, Source.H_mapInt env φ hφ r]
-  | .query s sel pre grp post ord rows => by
-    simp [Source.mapInt, Source.H, Source.H_mapInt env φ hφ s, Features.Hs_mapInt env φ hφ sel,
-      FeatureOpt.H_mapInt env φ hφ pre, Features.Hs_mapInt env φ hφ grp, FeatureOpt.H_mapInt env φ hφ post,
-      Orderings.Hs_mapInt env φ hφ ord]
-end
-
-private theorem Feature.isAlias_mapInt (φ : Int → Int) (f : Feature) : (f.mapInt φ).isAlias = f.isAlias := by
-  cases f <;> simp [Feature.mapInt, Feature.isAlias]
-
-/-- Renaming integer literals by any `φ` that preserves their hash (e.g. swapping −1 and −2, or adding a
-multiple of 2^61−1) is invisible to `hash` in every context … -/
-theorem C08_collision_lift_hash (env : HashEnv α) (φ : Int → Int) (hφ : ∀ n, pyIntHash (φ n) = pyIntHash n) :
-    (∀ f : Feature, (f.mapInt φ).H env = f.H env) ∧ (∀ s : Source, (s.mapInt φ).H env = s.H env) :=
-  ⟨Feature.H_mapInt env φ hφ, Source.H_mapInt env φ hφ⟩
-
-/-- … hence to `==` on features: every feature equals its renamed version (dict / set / `lru_cache` keyed by
-it return the other one's entry) -/
-theorem C08_collision_lift (env : HashEnv α) (φ : Int → Int) (hφ : ∀ n, pyIntHash (φ n) = pyIntHash n)
-    (f : Feature) : Feature.implEq env f (f.mapInt φ) = some true := by
-  have h := Feature.H_mapInt env φ hφ
-  cases f <;> simp [Feature.implEq, aliasEq, Feature.operable, Feature.mapInt] <;> first | exact (h _).symm | skip
-  all_goals simp [← h, Feature.mapInt]
-
-private theorem Features.implEq_mapInt (env : HashEnv α) (φ : Int → Int) (hφ : ∀ n, pyIntHash (φ n) = pyIntHash n) :
-    (fs : Features) → Features.implEq env fs (fs.mapInt φ) = some true
-  | .nil => by simp [Features.mapInt, Features.implEq]
-  | .cons f fs => by
-    simp [Features.mapInt, Features.implEq, eqAnd, C08_collision_lift env φ hφ f, Features.implEq_mapInt env φ hφ fs]
-
-private theorem FeatureOpt.implEq_mapInt (env : HashEnv α) (φ : Int → Int) (hφ : ∀ n, pyIntHash (φ n) = pyIntHash n)
-    (o : FeatureOpt) : FeatureOpt.implEq env o (o.mapInt φ) = Option.some true := by
-  cases o <;> simp [FeatureOpt.mapInt, FeatureOpt.implEq, C08_collision_lift env φ hφ]
-
-private theorem Orderings.implEq_mapInt (env : HashEnv α) (φ : Int → Int) (hφ : ∀ n, pyIntHash (φ n) = pyIntHash n) :
-    (os : Orderings) → Orderings.implEq env os (os.mapInt φ) = some true
-  | .nil => by simp [Orderings.mapInt, Orderings.implEq]
-  | .cons (.mk f d) os => by
-    simp [Orderings.mapInt, Ordering.mapInt, Orderings.implEq, Ordering.implEq, eqAnd,
-      C08_collision_lift env φ hφ f, Orderings.implEq_mapInt env φ hφ os]
-
-/-- … and on statements: a query and the same query with colliding literals exchanged are the same
-dictionary key -/
-theorem C08_collision_lift_source (env : HashEnv α) (φ : Int → Int) (hφ : ∀ n, pyIntHash (φ n) = pyIntHash n) :
-    (s : Source) → Source.implEq env s (s.mapInt φ) = some true
-  | .table n fs => by simp [Source.mapInt, Source.implEq, fieldsEq]
-  | .ref s n => by simp [Source.mapInt, Source.implEq, eqAnd, C08_collision_lift_source env φ hφ s]
-  | .join l r k c => by
-    simp [Source.mapInt, Source.implEq, eqAnd, C08_collision_lift_source env φ hφ l,
-      C08_collision_lift_source env φ hφ r, FeatureOpt.implEq_mapInt env φ hφ c]
-  | .set l r k => by
-    simp [Source.mapInt, Source.implEq, eqAnd, C08_collision_lift_source env φ hφ l,
-      C08_collision_lift_source env φ hφ r]
-  | .query s sel pre grp post ord rows => by
-    simp [Source.mapInt, Source.implEq, eqAnd, C08_collision_lift_source env φ hφ s,
-      Features.implEq_mapInt env φ hφ, FeatureOpt.implEq_mapInt env φ hφ, Orderings.implEq_mapInt env φ hφ]
-
-/-- the renaming that exchanges −1 and −2 preserves every integer hash -/
-def swapNeg (n : Int) : Int := if n = -1 then -2 else if n = -2 then -1 else n
-
-theorem C08_swapNeg_hash (n : Int) : pyIntHash (swapNeg n) = pyIntHash n := by
-  unfold swapNeg
-  split
-  · subst_vars; decide
-  · split
-    · subst_vars; decide
-    · rfl
-
-/-! ### pickling -/
-
-/-- "identity survives pickling" at full strength -/
-def C08_pickle_full : Prop := (∀ k : Kind, k.pickle = some k) ∧ (∀ s : Source, s.pickle = some s)
-
-private theorem Kind.pickle_primitive (k : Kind) (h : k.isPrimitive = true) : k.pickle = some k := by
-  cases k <;> simp_all [Kind.pickle, Kind.isPrimitive]
-
-private theorem fieldsPickle_primitive : (fs : Fields) → fieldsPrimitive fs = true → fieldsPickle fs = some fs
-  | [], _ => rfl
-  | (n, k) :: fs, h => by
-    simp [fieldsPrimitive] at h
-    simp [fieldsPickle, Kind.pickle_primitive k h.1, fieldsPickle_primitive fs (by simpa [fieldsPrimitive] using h.2)]
-
-mutual
-private theorem Feature.pickle_ok : (f : Feature) → f.noCompound = true → f.pickle = some f
-  | .lit v, _ => by simp [Feature.pickle]
-  | .elem o n, h => by
-    simp [Feature.noCompound] at h
-    simp [Feature.pickle, Source.pickle_ok o h]
-  | .alias f n, h => by
-    simp [Feature.noCompound] at h
-    simp [Feature.pickle, Feature.pickle_ok f h]
-  | .expr op args, h => by
-    simp [Feature.noCompound] at h
-    simp [Feature.pickle, Features.pickle_ok args h]
-  | .cast f k, h => by
-    simp [Feature.noCompound] at h
-    simp [Feature.pickle, Feature.pickle_ok f h.1, Kind.pickle_primitive k h.2]
-  | .window fn ps os, h => by
-    simp [Feature.noCompound] at h
-    simp [Feature.pickle, Feature.pickle_ok fn h.1.1, Features.pickle_ok ps h.1.2, Orderings.pickle_ok os h.2]
-private theorem Features.pickle_ok : (fs : Features) → fs.noCompound = true → fs.pickle = some fs
-  | .nil, _ => by simp [Features.pickle]
-  | .cons f fs, h => by
-    simp [Features.noCompound] at h
-    simp [Features.pickle, Feature.pickle_ok f h.1, Features.pickle_ok fs h.2]
-private theorem FeatureOpt.pickle_ok : (o : FeatureOpt) → o.noCompound = true → o.pickle = Option.some o
-  | .none, _ => by simp [FeatureOpt.pickle]
-  | .some f, h => by
-    simp [FeatureOpt.noCompound] at h
-    simp [FeatureOpt.pickle, Feature.pickle_ok f h]
-private theorem Ordering.pickle_ok : (o : Ordering) → o.noCompound = true → o.pickle = some o
-  | .mk f d, h => by
-    simp [Ordering.noCompound] at h
-    simp [Ordering.pickle, Feature.pickle_ok f h]
-private theorem Orderings.pickle_ok : (os : Orderings) → os.noCompound = true → os.pickle = some os
-  | .nil, _ => by simp [Orderings.pickle]
-  | .cons o os, h => by
-    simp [Orderings.noCompound] at h
-    simp [Orderings.pickle, Ordering.pickle_ok o h.1, Orderings.pickle_ok os h.2]
-private theorem Source.pickle_ok : (s : Source) → s.noCompound = true → s.pickle = some s
-  | .table n fs, h => by
-    simp [Source.noCompound] at h
-    simp [Source.pickle, fieldsPickle_primitive fs h]
-  | .ref s n, h => by
-    simp [Source.noCompound] at h
-    simp [Source.pickle, Source.pickle_ok s h]
-  | .join l r k c, h => by
-    simp [Source.noCompound] at h
-    simp [Source.pickle, Source.pickle_ok l h.1.1, Source.pickle_ok r h.1.2, FeatureOpt.pickle_ok c h.2]
-  | .set l r k, h => by
-    simp [Source.noCompound] at h
-    simp [Source.pickle, Source.pickle_ok l h.1, Source.pickle_ok r h.2]
-  | .query s sel pre grp post ord rows, h => by
-    simp [Source.noCompound] at h
-    simp [Source.pickle, Source.pickle_ok s h.1.1.1.1.1, Features.pickle_ok sel h.1.1.1.1.2,
-      FeatureOpt.pickle_ok pre h.1.1.1.2, Features.pickle_ok grp h.1.1.2, FeatureOpt.pickle_ok post h.1.2,
-      Orderings.pickle_ok ord h.2]
-end
-
-/-- objects without compound kinds are reconstructed identically (hence equal and hash-equal, `C08_sound_*`) -/
-theorem C08_pickle_partial :
-    (∀ k : Kind, k.isPrimitive = true → k.pickle = some k)
-    ∧ (∀ f : Feature, f.noCompound = true → f.pickle = some f)
-    ∧ (∀ s : Source, s.noCompound = true → s.pickle = some s) :=
-  ⟨Kind.pickle_primitive, Feature.pickle_ok, Source.pickle_ok⟩
-
-/-- finding C08-F3: a compound kind does not survive pickling -/
-theorem C08_pickle_counterexample : ¬ C08_pickle_full := by
-  intro h
-  have := h.1 (.array .integer)
-  simp [Kind.pickle] at this
+/-- statements as keys (feed source maps, `lru_cache` of `Source.__getitem__` and `Reader._parse_statement`) -/
+theorem C08_dict_source {α V : Type} [DecidableEq α] (env : HashEnv α) (cf : Lit → Lit → Bool) (k : Source)
+    (hk : k.windowFree = true) (d : List (Source × V)) (r : Option V)
+    (h : dictGet (fun s => s.H env) (Source.identEq cf) d k = .ok r) : r = structGet d k :=
+  C08_dict_structural _ _ k (fun k' => Source.identEq_sound cf k' k) (Source.identEq_refl cf k hk) d r h
 
 /-! ### non-vacuity (tests, not theorems about all inputs) -/
 
 section NonVacuity
 
 private def tA : Source := .table "A" [("a", .integer), ("b", .string)]
-private def tB : Source := .table "B" [("a", .integer), ("d", .date)]
+private def tB : Source := .table "B" [("a", .integer), ("b", .string)]
 private def colA (n : String) : Feature := .elem tA n
 private def q (lim : Int) : Source :=
   .query tA (.cons (.alias (colA "a") "x") (.cons (colA "b") .nil))
     (.some (.expr .gt (.cons (colA "a") (.cons (.lit (.int lim)) .nil)))) .nil .none
     (.cons (.mk (colA "b") .desc) .nil) (some (10, 0))
+private def nocf : Lit → Lit → Bool := fun _ _ => false
 
-/-- the hypotheses of `C08_complete_on` hold for a non-trivial pair (queries differing in one literal,
-free environment) and the conclusion is used: the two are told apart -/
-example : (∀ p ∈ Source.cmpPairs (q 1) (q 2), Faithful freeEnv p) ∧ (∀ p ∈ Source.tabPairs (q 1) (q 2), NoTwin p)
-    ∧ Source.implEq freeEnv (q 1) (q 2) = some false := by decide
+/-- a non-trivial window-free statement satisfies the hypothesis and the conclusion is used both ways -/
+example : (q 1).windowFree = true ∧ Source.identEq nocf (q 1) (q 1) = some true
+    ∧ Source.identEq nocf (q 1) (q 2) = some false := by decide
 
-/-- … while the colliding pair is confused, as `C08_collision_lift_source` says -/
-example : Source.implEq freeEnv (q (-1)) (q (-2)) = some true ∧ (q (-1)).mapInt swapNeg = q (-2) := by decide
+/-- the colliding pair hashes equal (in the free environment, hence in every one) and is told apart by `==`;
+a dictionary holding the one does not answer for the other -/
+example : (q (-1)).H freeEnv = (q (-2)).H freeEnv ∧ Source.identEq nocf (q (-1)) (q (-2)) = some false
+    ∧ (dictGet (fun s => s.H freeEnv) (Source.identEq nocf) [(q (-1), 1)] (q (-2))).toOption = some none
+    ∧ (dictGet (fun s => s.H freeEnv) (Source.identEq nocf) [(q (-1), 1), (q (-2), 2)] (q (-2))).toOption
+      = some (some 2) := by decide
 
-example : (q 1).noCompound = true ∧ (q 1).pickle = some (q 1) := by decide
+/-- twin tables, alias wrapping, cross-type literals -/
+example : Source.identEq nocf tA tB = some false ∧ Feature.identEq nocf (colA "a") (.alias (colA "a") "x") = some false
+    ∧ Feature.identEq nocf (.alias (colA "a") "x") (colA "a") = some false
+    ∧ Feature.identEq (fun _ _ => true) (.lit (.int 1)) (.lit (.float "1.0")) = some false
+    ∧ Feature.identEq nocf (.lit (.int 1)) (.lit (.bool true)) = some false := by decide
 
-example : Source.implEq freeEnv (.join tA tB .inner (.some (.expr .eq (.cons (colA "a") (.cons (.elem tB "a") .nil)))))
-    (.join tA tB .left (.some (.expr .eq (.cons (colA "a") (.cons (.elem tB "a") .nil))))) = some false := by decide
+/-- an optional clause on one side only: the comparison raises -/
+example : Source.identEq nocf (q 1) (.query tA (.cons (.alias (colA "a") "x") (.cons (colA "b") .nil)) .none .nil .none
+    (.cons (.mk (colA "b") .desc) .nil) (some (10, 0))) = none := by decide
 
 end NonVacuity
 
